@@ -342,14 +342,18 @@ class Project:
         if kf:
           self.inlined.append(f'{kf} branch(es) on a constant flag folded')
       if expand.get('loops'):
-        ku = sum(normalise.unroll_literal_loops(f.node) for f in fns)
+        ku = k = 0
+        for f in fns:
+          ku1 = normalise.unroll_literal_loops(f.node)
+          k1 = normalise.loops_to_comprehensions(f.node)
+          ku += ku1
+          k += k1
+          if (ku1 or k1) and expand.get('temps'):
+            k_t += normalise.eliminate_temps(f.node)   # only where it changed
         if ku:
           self.inlined.append(f'{ku} loop(s) over a literal table unrolled')
-        k = sum(normalise.loops_to_comprehensions(f.node) for f in fns)
         if k:
           self.inlined.append(f'{k} accumulator loop(s) as comprehensions')
-          if expand.get('temps'):
-            k_t += sum(normalise.eliminate_temps(f.node) for f in fns)
       if k_t:
         self.inlined.append(f'{k_t} single-assignment local(s) substituted')
       if hp and expand.get('temps'):
@@ -358,16 +362,18 @@ class Project:
         if ks:
           self.inlined.append(f'{ks} call(s) through a selected function '
                               'written at the selection')
+          n0 = len(self.inlined)
           self.inlined += inline.Inliner(
               self, None if hp is True else list(hp)).run().sites
-          k_t += sum(normalise.eliminate_temps(f.node) for f in fns)
+          touched = {s_.split(' <', 1)[0] for s_ in self.inlined[n0:]}
+          k_t += sum(normalise.eliminate_temps(f.node) for f in fns
+                     if f.qualname in touched)
       if hp and (expand.get('temps') or expand.get('loops')):
         # records whose aliases went away with the temporaries
         folder = inline.Inliner(self, None)
         for f in fns:
           if isinstance(f.node, ast.FunctionDef):
-            folder._fold_records(f)  # pylint: disable=protected-access
-            if expand.get('temps'):
+            if folder._fold_records(f) and expand.get('temps'):  # pylint: disable=protected-access
               normalise.eliminate_temps(f.node)
       for f in self.funcs.values():
         f._locals = None   # computed on the tree as written
